@@ -849,6 +849,9 @@ def build_case(node, modname, layers):
         def shortDescription(self):
             return _test_spec(self).get('sdesc')
         ns['shortDescription'] = shortDescription
+    if node.get('falsy'):
+        # test objects that are false in a boolean context (a TestCase that is also an empty container)
+        ns['__bool__'] = lambda self: False
     if any('count' in t for t in node['tests']):
         # a test object standing for several checks (or none): legal, the runner adds countTestCases() to its totals
         def countTestCases(self):
